@@ -919,7 +919,7 @@ class _Source:
         return self._consume_pattern(repattern)
 
     def consume_empty_tuple(self):
-        return self._consume_pattern(re.compile(r"\(\s*\)"))
+        return self._consume_pattern(re.compile(r"\((\s|\\\n|#[^\n]*\n)*\)"))
 
     def consume_with_or_comma_context_manager(self):
         repattern = re.compile(r"with|,")
